@@ -65,14 +65,20 @@ func process1Map(obj map[string]any, mergeFrom *Document, mergeFromDocs []*Docum
 }
 
 func process1MapMerge(obj map[string]any, mergeFrom *Document, mergeFromDocs []*Document, v any, depth int) (any, error) {
+	mergeFrom.expanding = append(mergeFrom.expanding, obj)
+	defer func() {
+		mergeFrom.expanding = mergeFrom.expanding[:len(mergeFrom.expanding)-1]
+	}()
+
 	in, err := get(mergeFrom, mergeFromDocs, v)
 	if err != nil {
 		return nil, err
 	}
 
-	if containsMap(in, obj) {
-		// Merging a subtree into itself or into one of its descendants
-		return nil, fmt.Errorf("%#v: %w", v, ErrCircularRef)
+	// Merging a subtree into itself or into one of its descendants
+	err = mergeFrom.checkCircular(v, in)
+	if err != nil {
+		return nil, err
 	}
 
 	// Merge a copy so that the referenced subtree is never aliased into (or
@@ -87,6 +93,11 @@ func process1MapMerge(obj map[string]any, mergeFrom *Document, mergeFromDocs []*
 
 func process1MapReplace(obj map[string]any, mergeFrom *Document, mergeFromDocs []*Document, v any, depth int) (any, error) {
 	next, err := get(mergeFrom, mergeFromDocs, v)
+	if err != nil {
+		return nil, err
+	}
+
+	err = mergeFrom.checkCircular(v, next)
 	if err != nil {
 		return nil, err
 	}
@@ -152,11 +163,21 @@ func process1ListMerge(obj []any, mergeFrom *Document, mergeFromDocs []*Document
 		return nil, err
 	}
 
+	err = mergeFrom.checkCircular(m, in)
+	if err != nil {
+		return nil, err
+	}
+
 	return mergeList(obj, cloneValue(in))
 }
 
 func process1ListReplace(obj []any, mergeFrom *Document, mergeFromDocs []*Document, m any, depth int) (any, error) {
 	next, err := get(mergeFrom, mergeFromDocs, m)
+	if err != nil {
+		return nil, err
+	}
+
+	err = mergeFrom.checkCircular(m, next)
 	if err != nil {
 		return nil, err
 	}
@@ -184,6 +205,11 @@ func process1StringMerge(obj string, mergeFrom *Document, mergeFromDocs []*Docum
 		return nil, err
 	}
 
+	err = mergeFrom.checkCircular(path, in)
+	if err != nil {
+		return nil, err
+	}
+
 	return process1(cloneValue(in), mergeFrom, mergeFromDocs, depth)
 }
 
@@ -191,6 +217,11 @@ func process1StringReplace(obj string, mergeFrom *Document, mergeFromDocs []*Doc
 	path := strings.TrimPrefix(obj, "$replace:")
 
 	in, err := get(mergeFrom, mergeFromDocs, path)
+	if err != nil {
+		return nil, err
+	}
+
+	err = mergeFrom.checkCircular(path, in)
 	if err != nil {
 		return nil, err
 	}
